@@ -4,6 +4,7 @@ import (
 	"fmt"
 	"go/types"
 	"sort"
+	"strings"
 
 	"golang.org/x/tools/go/ssa"
 )
@@ -22,6 +23,9 @@ type fnState struct {
 func (c *FnCtx) candidatesFor(li *loopInfo) []*candidate {
 	if c.state == nil || c.opts == nil || !c.opts.houdini {
 		return nil
+	}
+	if c.knownHeaps == nil {
+		return nil // first pass only discovers heaps
 	}
 	if cs, ok := c.state.cands[li.ordinal]; ok {
 		return cs
@@ -84,8 +88,15 @@ func (c *FnCtx) genCandidates(li *loopInfo) []*candidate {
 		if !ok {
 			break
 		}
-		if phi.Comment != "" {
+		if phi.Comment != "" && !strings.Contains(phi.Comment, ".") {
 			addVar(phi.Comment, phi.Type(), 0)
+		}
+	}
+	for _, in := range li.header.Instrs {
+		if dr, ok := in.(*ssa.DebugRef); ok && !dr.IsAddr {
+			if phi, ok := dr.X.(*ssa.Phi); ok && phi.Block() == li.header && dr.Object() != nil {
+				addVar(dr.Object().Name(), phi.Type(), 0)
+			}
 		}
 	}
 	// named locals defined in dominating blocks
@@ -131,6 +142,24 @@ func (c *FnCtx) genCandidates(li *loopInfo) []*candidate {
 		}
 	}
 	var out []*candidate
+	// automatic frame candidates: objects that existed at function entry are unchanged
+	var ws []string
+	for h := range li.writes {
+		ws = append(ws, h)
+	}
+	sort.Strings(ws)
+	for _, h := range ws {
+		if srt, ok := c.heapSort[h]; ok && !c.isLocalHeap(h) && h != "ALLOC" && len(srt) > 10 && srt[:10] == "(Array Int" {
+			out = append(out, &candidate{text: "pre-existing objects unchanged in " + h, frame: h, alive: true})
+		}
+	}
+	if li.writes["*"] {
+		for _, h := range c.heapOrder {
+			if srt := c.heapSort[h]; !c.isLocalHeap(h) && h != "ALLOC" && len(srt) > 10 && srt[:10] == "(Array Int" && !li.writes[h] {
+				out = append(out, &candidate{text: "pre-existing objects unchanged in " + h, frame: h, alive: true})
+			}
+		}
+	}
 	for _, t := range texts {
 		e, err := parseExpr(t)
 		if err != nil {
